@@ -291,30 +291,43 @@ pub fn make_module() -> KMap {
                     let f = f.clone();
 
                     let mut write_index = 0;
+                    let mut error = None;
                     for read_index in 0..l.len() {
                         // The predicate can modify the list, so its length has to be rechecked
                         let Some(value) = l.data().get(read_index).cloned() else {
                             break;
                         };
-                        match ctx.vm.call_function(f.clone(), value.clone()) {
-                            Ok(KValue::Bool(result)) => {
-                                if result {
-                                    if let Some(slot) = l.data_mut().get_mut(write_index) {
-                                        *slot = value;
-                                        write_index += 1;
-                                    }
+                        let retain = match error {
+                            // Once the predicate has failed the remaining values are retained,
+                            // the list then consists of the values that have been retained so
+                            // far followed by the values that haven't been tested.
+                            Some(_) => true,
+                            None => match ctx.vm.call_function(f.clone(), value.clone()) {
+                                Ok(KValue::Bool(result)) => result,
+                                Ok(unexpected) => {
+                                    error = Some(unexpected_type(
+                                        "a Bool to returned from the predicate",
+                                        &unexpected,
+                                    ));
+                                    true
                                 }
+                                Err(e) => {
+                                    error = Some(Err(e));
+                                    true
+                                }
+                            },
+                        };
+                        if retain {
+                            if let Some(slot) = l.data_mut().get_mut(write_index) {
+                                *slot = value;
+                                write_index += 1;
                             }
-                            Ok(unexpected) => {
-                                return unexpected_type(
-                                    "a Bool to returned from the predicate",
-                                    &unexpected,
-                                );
-                            }
-                            Err(error) => return Err(error),
                         }
                     }
                     l.data_mut().truncate(write_index);
+                    if let Some(error) = error {
+                        return error;
+                    }
                     l
                 }
                 (KValue::List(l), [value]) => {
